@@ -276,6 +276,7 @@ structure Feat where
   fieldMask : Bool := false     -- with_field_mask        (minted only)
   halfway : Bool := false       -- field_mask_halfway     (minted only)
   fastgo : Bool := false        -- backend fastgo         (minted only)
+  adaptor : Bool := false       -- apache_adaptor: Read/Write delegate to the adaptor, no ReadField<id>/writeField<id> (declared only)
   deriving Repr
 
 /-- `Scope.identify`: `cu.Identify` (trim "$", naming style) + the compatible_names suffix -/
@@ -564,7 +565,8 @@ def declaredMembers (ft : Feat) (synth : Bool) (s : StructNames) : List Bytes :=
   (if ft.deq then [sDeepEqual] else []) ++
   (if ft.fieldMask && !synth then [sGetFM, sSetFM, sFieldmask] ++ (if ft.halfway then [sPassFM] else []) else []) ++
   (if ft.fastgo then [sBLength, sFastWrite, sFastWriteNocopy, sFastAppend, sFastRead] else []) ++
-  s.fields.flatMap fieldMethodNames ++ s.fields.map (·.name)
+  s.fields.flatMap (fun f => (fieldMethodNames f).filter (fun n => !(ft.adaptor && (n = f.reader || n = f.writer)))) ++
+  s.fields.map (·.name)
 
 /-- member names minted by the templates, i.e. not handed out by the struct's namespace -/
 def mintedMembers (ft : Feat) (synth : Bool) (s : StructNames) : List Bytes :=
